@@ -117,14 +117,31 @@ def ackS3 : S3.Op → S3.Out
   | .del _ _ vid _ => .deleted vid false
   | _ => .unit
 
-def innerS3 (q : Quirks) : Inner S3.State S3.Op S3.Out :=
-  { step := S3.step q, addr := addrOf false, ack := ackS3 }
+/-- An operation as the outbox sees it: the storage operation plus whether the outbox layer's own
+validation of the call fails (`bad`): the client-supplied checksum / ETag does not match the
+received body, or the body cannot be read to its end. The S3 model has no checksums; a `bad`
+operation is rejected by whichever layer validates it (the outbox on the queue path, the inner
+storage on the write-through path) and leaves no trace. -/
+structure COp where
+  op : S3.Op
+  bad : Bool := false
+  deriving Inhabited
 
-def policyS3 (tbl : List Method) : Policy S3.State S3.Op :=
-  { queues := queuesS3 tbl, scopes := scopesOf tbl }
+def ok (op : S3.Op) : COp := { op := op }
+
+def innerS3 (q : Quirks) : Inner S3.State COp S3.Out :=
+  { step := fun t c => if c.bad then (t, .err .other) else S3.step q t c.op
+    addr := fun c => addrOf false c.op
+    ack := fun c => ackS3 c.op
+    rejected := fun _ => .err .other }
+
+def policyS3 (tbl : List Method) : Policy S3.State COp :=
+  { queues := fun st c => queuesS3 tbl st c.op
+    scopes := fun c => scopesOf tbl c.op
+    rejects := fun c => c.bad }
 
 /-- The code as it is. -/
-def policyCode : Policy S3.State S3.Op := policyS3 Pithos.Gen.OutboxStorage.methods
+def policyCode : Policy S3.State COp := policyS3 Pithos.Gen.OutboxStorage.methods
 
 -- ---------------------------------------------------------------- required scopes (specification side)
 
